@@ -285,6 +285,11 @@ func c02Epilogue(w *world.World) {
 	w.Do(8, i, CompleteT("__resume:r:p", 99).F())
 	i++
 	w.Do(8, i, AcquireL("r1", "probe", "probe", 0).F())
+	i++
+	// who holds a task is observable through the heartbeat of each worker
+	w.Do(8, i, HeartbeatT("w1").F())
+	i++
+	w.Do(8, i, HeartbeatT("w2").F())
 }
 
 func C02Scenarios(tier string) []*Scenario {
@@ -322,6 +327,11 @@ func C02Scenarios(tier string) []*Scenario {
 			{"claimed", func(w *world.World) {
 				w.Do(9, 0, CreateP("p", "", false, 100, routedTags, "x").F())
 				w.Do(9, 1, ClaimT("__invoke:p", 1, "w1", 5).F())
+			}},
+			// dispatched and waiting to be claimed: the claim window lapses with the clock step
+			{"enqueued", func(w *world.World) {
+				w.Do(9, 0, CreateP("p", "", false, 100, routedTags, "x").F())
+				w.Sweep("EnqueueTasks")
 			}},
 		},
 		"lock": {
